@@ -201,6 +201,46 @@ def rule_f(ctx):
         ctx.ob("st-loop-exits-only-when-empty-or-aborted", good,
                "the single-threaded loop stops only when the queue is empty or the abort signal is set", [e.site for e in exits])
     c06.rule_a(ctx)
+    # the multi-threaded sibling: a worker leaves its run loop only with its fast slot and local queue empty (or aborted); it then
+    # searches / parks on the assumption that it holds no runnable task
+    ws = [w for w in P.all_bodies() if w.name.startswith("executor::mt_executor::run_local_worker") and any(True for _ in w.calls(r"Runnable::run$"))]
+    ctx.ob("mt-loop-present", len(ws) == 1, "one run loop in the multi-threaded worker", [w.loc() if hasattr(w, "loc") else w.name for w in ws])
+    for w in ws:
+        runs = list(w.calls(r"Runnable::run$"))
+        ok = len(runs) == 1 and w.innermost_loop(runs[0]) is not None
+        ctx.ob("mt-loop-shape", ok, "the worker runs tasks at one site inside a loop", runs)
+        if not ok:
+            continue
+        h, blocks = w.innermost_loop(runs[0])
+        good = True
+        sites = []
+        n_none = 0
+        for x, y in w.loop_exit_edges(blocks):
+            if w.blocks[x]["term"]["t"] != "switch":
+                good = False
+                sites.append(Site(w, x, TERM))
+                continue
+            e = Cond(w, x, y)
+            sites.append(e.site)
+            is_abort = e.kind == "call" and e.data[0].endswith("Signal::is_set") and e.data[1] is True
+            is_none = False
+            if e.kind == "variant" and e.data[1] == {"None"} and not e.data[2] and e.data[0]:
+                is_none = True
+                for o in e.data[0]:
+                    if not (o[0] == "call" and o[2] == "std::option::Option::or_else"):
+                        is_none = False
+                        continue
+                    oe = Site(w, o[1], TERM)
+                    ro = w.origins(oe.args()[0], oe)
+                    took = bool(ro) and all(r[0] == "call" and r[2].endswith("::take") for r in ro)
+                    pops = [P.body(norm(g)) for g in oe.node.get("gdefs", [])]
+                    popped = any(pb is not None and any(True for _ in pb.calls(r"^st3::fifo::Worker::pop$")) for pb in pops)
+                    is_none = is_none and took and popped
+                n_none += 1 if is_none else 0
+            good = good and (is_abort or is_none)
+        ctx.ob("mt-loop-exits-only-when-empty-or-aborted", good and n_none >= 1,
+               "the worker's run loop stops only when fast_slot.take().or_else(local_queue.pop()) is None or the abort signal is set "
+               "(any other exit parks a worker that still holds runnable tasks)", sites)
 
 
 def rule_g(ctx):
